@@ -129,15 +129,11 @@ theorem actTail_noPrefix (c : Cfg) (pm : Bool) (p : Bytes) (r : Ret) (hP : ¬ c.
 
 theorem em_file (c : Cfg) (h : Hyp c) (b n : Bytes) (hn : slash ∉ n) (hb : BaseOK c b) :
     (act0 c ⟨b ++ n, n, false, true⟩).em? =
-      if n ∈ c.skip then none else
       if (c.marker = [] ∨ blt c.marker (b ++ n) = true) ∧ c.pfx <+: b ++ n then
         (c.getObj (b ++ n)).map (fun m => Em.obj ⟨b ++ n, m.1, m.2⟩ (b ++ n))
       else none := by
   unfold act0 actAt act
-  by_cases hs : n ∈ c.skip
-  · simp [hs, Act.em?]
-  · have hs' : c.skip.contains n = false := by simpa using hs
-    simp only [hs', Bool.false_eq_true, if_false, hs]
+  · simp only [Bool.false_and, Bool.false_eq_true, if_false]
     by_cases hM : c.marker = [] ∨ blt c.marker (b ++ n) = true
     · by_cases hP : c.pfx <+: b ++ n
       · rw [if_pos ⟨hM, hP⟩, actTail_obj c _ _ hM hP, actObj_em]
@@ -212,12 +208,12 @@ theorem rolledUp_cond (c : Cfg) (h : Hyp c) (a : Bytes) :
       simp [hd, e1, e2, e3]
 
 /-- the callback's flag for a directory that is not skip-listed -/
-theorem flagOf_dir (c : Cfg) (h : Hyp c) (a n : Bytes) (ne : Bool) (hs : n ∉ c.skip) :
+theorem flagOf_dir (c : Cfg) (h : Hyp c) (a n : Bytes) (ne : Bool) (hs : a ∉ c.skip) :
     (prefixPruned c (a ++ [slash]) ∨ rolledUp c (a ++ [slash]) → flagOf c ⟨a, n, true, ne⟩ = .skipDir) ∧
     (¬ prefixPruned c (a ++ [slash]) → ¬ rolledUp c (a ++ [slash]) → flagOf c ⟨a, n, true, ne⟩ = .nil) := by
-  have hs' : c.skip.contains n = false := by simpa using hs
+  have hs' : c.skip.contains a = false := by simpa using hs
   unfold flagOf
-  simp only [hs', Bool.false_eq_true, if_false, if_true]
+  simp only [hs', Bool.and_false, Bool.false_eq_true, if_false, if_true]
   by_cases h1 : prefixPruned c (a ++ [slash])
   · rw [if_pos ((prefixPruned_cond c _).2 h1)]
     exact ⟨fun _ => rfl, fun hh => absurd h1 hh⟩
@@ -228,18 +224,18 @@ theorem flagOf_dir (c : Cfg) (h : Hyp c) (a n : Bytes) (ne : Bool) (hs : n ∉ c
     · rw [if_neg (fun hh => h2 ((rolledUp_cond c h a).1 hh))]
       exact ⟨fun hh => hh.elim (fun x => absurd x h1) (fun x => absurd x h2), fun _ _ => rfl⟩
 
-theorem flagOf_skip (c : Cfg) (a n : Bytes) (d ne : Bool) (hs : n ∈ c.skip) : flagOf c ⟨a, n, d, ne⟩ = .skipDir := by
-  have hs' : c.skip.contains n = true := by simpa using hs
+theorem flagOf_skip (c : Cfg) (a n : Bytes) (ne : Bool) (hs : a ∈ c.skip) : flagOf c ⟨a, n, true, ne⟩ = .skipDir := by
+  have hs' : (true && c.skip.contains a) = true := by simpa using hs
   unfold flagOf
   rw [if_pos hs']
 
 /-- a directory that is neither pruned nor rolled up emits nothing (it is not an explicit object) -/
-theorem em_dir_descend (c : Cfg) (h : Hyp c) (a n : Bytes) (ne : Bool) (hs : n ∉ c.skip)
+theorem em_dir_descend (c : Cfg) (h : Hyp c) (a n : Bytes) (ne : Bool) (hs : a ∉ c.skip)
     (h1 : ¬ prefixPruned c (a ++ [slash])) (h2 : ¬ rolledUp c (a ++ [slash])) :
     (act0 c ⟨a, n, true, ne⟩).em? = none := by
-  have hs' : c.skip.contains n = false := by simpa using hs
+  have hs' : c.skip.contains a = false := by simpa using hs
   unfold act0 actAt act
-  simp only [hs', Bool.false_eq_true, if_false, if_true]
+  simp only [hs', Bool.and_false, Bool.false_eq_true, if_false, if_true]
   unfold actDir
   dsimp only
   rw [if_neg (fun hh => h1 ((prefixPruned_cond c _).1 hh)), if_neg (fun hh => h2 ((rolledUp_cond c h a).1 hh))]
@@ -271,22 +267,22 @@ theorem em_dir_pruned (c : Cfg) (a n : Bytes) (ne : Bool) (h1 : prefixPruned c (
   dsimp only
   rw [if_pos ((prefixPruned_cond c _).2 h1)]; rfl
 
-theorem em_skip (c : Cfg) (a n : Bytes) (d ne : Bool) (hs : n ∈ c.skip) :
-    (act0 c ⟨a, n, d, ne⟩).em? = none := by
-  have hs' : c.skip.contains n = true := by simpa using hs
+theorem em_skip (c : Cfg) (a n : Bytes) (ne : Bool) (hs : a ∈ c.skip) :
+    (act0 c ⟨a, n, true, ne⟩).em? = none := by
+  have hs' : (true && c.skip.contains a) = true := by simpa using hs
   unfold act0 actAt act
   rw [if_pos hs']; rfl
 
 /-- a rolled-up directory `a/ = P ++ x ++ "/"` emits its common prefix unless the marker says no -/
-theorem em_dir_rolled (c : Cfg) (h : Hyp c) (a n : Bytes) (ne : Bool) (hs : n ∉ c.skip)
+theorem em_dir_rolled (c : Cfg) (h : Hyp c) (a n : Bytes) (ne : Bool) (hs : a ∉ c.skip)
     (h1 : ¬ prefixPruned c (a ++ [slash])) (h2 : rolledUp c (a ++ [slash]))
     (x : Bytes) (hx : a = c.pfx ++ x) (hxs : slash ∉ x) :
     (act0 c ⟨a, n, true, ne⟩).em? =
       if c.marker = [] ∨ (blt c.marker (a ++ [slash]) = true ∧ ¬ a <+: c.marker) then some (.cp (a ++ [slash])) else none := by
-  have hs' : c.skip.contains n = false := by simpa using hs
+  have hs' : c.skip.contains a = false := by simpa using hs
   have hd := h2.1
   unfold act0 actAt act
-  simp only [hs', Bool.false_eq_true, if_false, if_true]
+  simp only [hs', Bool.and_false, Bool.false_eq_true, if_false, if_true]
   unfold actDir
   dsimp only
   rw [if_neg (fun hh => h1 ((prefixPruned_cond c _).1 hh)), if_pos ((rolledUp_cond c h a).2 h2)]
